@@ -465,6 +465,8 @@ def check(ctx):
                           'made for (a timer that is dropped as the twin of a cancelled one never fires and the part is never released)'))
     obs.append(ctx.shared('c07', 'C07.1', 'C06.9', 'the remaining cycle time survives a shutdown because the pause length now - paused_at is added on resume; that needs every '
                           'paused timer to be stamped with the time of *this* pause'))
+    obs.append(ctx.shared('c07', 'C07.2', 'C06.12', 'the part in process of a restored machine is finished after exactly its remaining cycle time: the resume walks a copy of '
+                          'the paused list, so *every* paused timer of the machine (not every second one) returns to the queue, shifted by the length of the pause'))
     obs.append(dv.falsy_default_obligation(ctx, 'C06.11', ['PartHandler', 'PartProcessor', 'Source', 'Sink', 'PartBatcher'], 'the cycle time of a device is the number it was given (0 is a legal cycle time)'))
     return obs
 
